@@ -77,12 +77,20 @@ class Ctx:
         self.n_eval += 1
         if cls is not None:
             self.classes[cls] += 1
+        self._lasth = None
         if nontrivial:
-            self.hashes.add(hash(s[s.index(",") + 1:]) & 0xFFFFFFFFFFFFFFFF)
+            self._lasth = hash(s[s.index(",") + 1:]) & 0xFFFFFFFFFFFFFFFF
+            self.hashes.add(self._lasth)
         if len(self.samples) < self.max_samples:
             self.samples.append(_short(desc))
         self._desc = desc
         return True
+
+    def mark_trivial(self):
+        """the case just announced turned out to be trivial by the check's rule: do not count it as distinct non-trivial"""
+        if getattr(self, "_lasth", None) is not None:
+            self.hashes.discard(self._lasth)
+            self._lasth = None
 
     def digest(self, *vals):
         """Fold the observable results of the current case (outputs, return codes) into its
